@@ -84,6 +84,15 @@ pub fn c04(out: &mut Out, ex: &mut Exec, seed: u64, thorough: bool) {
         out.op(&l, &r);
     };
     for t in &targeted { run(out, ex, t, "targeted"); out.nontrivial += 1; }
+    // operand grid: every operand position x boundary values of every field width x every notation (the conversions from
+    // token to field are separate code for each signedness)
+    for pre in ["ADD R0, R0, ", "AND R7, R7, ", "LDR R1, R2, ", "STR R1, R2, ", "BRnzp ", "BR ", "LD R0, ", "LDI R0, ", "LEA R0, ", "ST R0, ", "STI R0, ", "JSR ", "NOP ", "TRAP ", ".orig ", ".blkw ", ".fill "] {
+        for v in [0i64, 1, 15, 16, 31, 32, 255, 256, 1023, 1024, 32767, 32768, 40000, 65535, 65536, 99999] {
+            for t in [format!("{v}"), format!("#{v}"), format!("x{:X}", v), format!("X0{:x}", v), format!("-{v}"), format!("#-{v}"), format!("x-{:X}", v)] {
+                run(out, ex, &format!("{pre}{t}"), "grid"); out.nontrivial += 1;
+            }
+        }
+    }
     for i in 0..n {
         let s: String = match i % 3 {
             0 => { let k = rng.below(12); (0..k).map(|_| *rng.pick(&words)).collect::<Vec<_>>().join(*rng.pick(&["", " ", " ", ","])) }
@@ -123,8 +132,9 @@ pub fn c05(out: &mut Out, ex: &mut Exec, seed: u64, thorough: bool) {
             let expect_tok = if tok_ok { format!("{}{}@0..{}", if signed { "S" } else { "U" }, v, t.len()) } else { format!("E{}@0..{}", if signed { "nofiti16" } else { "nofitu16" }, t.len()) };
             if r != expect_tok { out.fail(out.lines, format!("token `{t}` lexed as `{r}`, expected `{expect_tok}`"), l.clone()); }
             // operand of every field
-            let contexts: [(&str, u32, bool, bool); 9] = [("ADD R0, R0, ", 5, true, false), ("LDR R0, R0, ", 6, true, false), ("BRnzp ", 9, true, false), ("JSR ", 11, true, false),
-                ("TRAP ", 8, false, false), (".orig ", 16, false, false), (".blkw ", 16, false, true), (".fill ", 16, false, false), ("LD R7, ", 9, true, false)];
+            let contexts: [(&str, u32, bool, bool); 11] = [("ADD R0, R0, ", 5, true, false), ("LDR R0, R0, ", 6, true, false), ("BRnzp ", 9, true, false), ("JSR ", 11, true, false),
+                ("TRAP ", 8, false, false), (".orig ", 16, false, false), (".blkw ", 16, false, true), (".fill ", 16, false, false), ("LD R7, ", 9, true, false),
+                ("NOP ", 9, true, false), ("AND R1, R2, ", 5, true, false)];
             if !ctx_for(v) { continue; }
             for (pre, bits, fsigned, nonzero) in contexts {
                 let text = format!("{pre}{t}");
@@ -134,7 +144,7 @@ pub fn c05(out: &mut Out, ex: &mut Exec, seed: u64, thorough: bool) {
                 let got_ok = r.starts_with("ok 1 ::");
                 if accept != got_ok { out.fail(out.lines, format!("`{text}`: accepted={got_ok}, expected accepted={accept} ({r})"), l.clone()); }
                 else if accept {
-                    let want = if pre == ".fill " { format!("o{}", (v as i16 as u16 as i64 + if v < -32768 { 0 } else { 0 }).rem_euclid(65536)) } else if fsigned { format!("{}{v}", if pre.starts_with("ADD") || pre.starts_with("LDR") { "i" } else { "o" }) } else { format!("{v}") };
+                    let want = if pre == ".fill " { format!("o{}", (v as i16 as u16 as i64 + if v < -32768 { 0 } else { 0 }).rem_euclid(65536)) } else if fsigned { format!("{}{v}", if pre.starts_with("ADD") || pre.starts_with("AND") || pre.starts_with("LDR") { "i" } else { "o" }) } else { format!("{v}") };
                     let want = if pre == ".fill " { format!("o{}", v.rem_euclid(65536)) } else { want };
                     if !r.contains(&format!(" {want} @")) { out.fail(out.lines, format!("`{text}` parsed to `{r}`, expected operand {want}"), l.clone()); }
                 }
